@@ -389,8 +389,15 @@ func init() {
 		c.Phase("push-form-grid") // every push form x data sizes on the size-class boundaries (incl. 32767/32768 and 65535/65536) x MINIMALDATA / era, executed and skipped
 		{
 			n := uint64(0)
-			for _, size := range []int{0, 1, 2, 75, 76, 255, 256, 520, 521, 32767, 32768, 40000, 65535, 65536} {
+			sizes := []int{0, 1, 2, 75, 76, 255, 256, 520, 521, 32767, 32768, 40000, 65535, 65536}
+			for l := 3; l <= 74; l++ { // every direct-push opcode (each has its own entry in the opcode table)
+				sizes = append(sizes, l)
+			}
+			for _, size := range sizes {
 				for _, form := range []byte{0, 0x4c, 0x4d, 0x4e} {
+					if size >= 3 && size <= 74 && form != 0 && size%9 != 0 {
+						continue
+					}
 					data := bytes.Repeat([]byte{0x5a}, size)
 					var push []byte
 					if form == 0 {
